@@ -11,7 +11,7 @@ from simkit import harness as H
 from simkit import peers as P
 from simkit import tls as T
 from simkit import world as W
-from simkit.runner import Result, rng_for
+from simkit.runner import Result, rng_for, stable_hash
 
 import os
 
@@ -164,7 +164,7 @@ def gen_race(rng):
 
 def cases(seed, k, tier):
     rng = rng_for(seed, ID, k)
-    if k % 250 == 7:
+    if k % 251 == 7:
         # systematic: every single pre-emption (sampled beyond a cap) of the sequential run of one race scenario
         base = gen_race(rng)
         base["schedule"] = {"decisions": []}
@@ -179,7 +179,7 @@ def cases(seed, k, tier):
             sc["schedule"] = {"decisions": [[st, "T1"]]}
             yield sc
         return
-    if k % 50 == 8:
+    if k % 51 == 8:
         yield gen_race(rng)
         return
     yield gen(rng)
@@ -379,7 +379,7 @@ def run_race(sc: dict) -> Result:
                 res.bad(f"wrong_error:{type(o[1]).__name__}", repr(o[1])[:160])
         res.info["switch_log"] = list(sched.switch_log)
         res.faults["preemptions"] += sched.preemptions
-        res.digest = hashlib.sha256(repr((sc["mode"], sc["certs"], [(o[0], type(o[1]).__name__ if o[0] == "exc" else o[1]) for o in outs if o], [len(tp.plain_in) > 0 for tp in peers], sched.signature())).encode()).hexdigest()[:16]
+        res.digest = hashlib.sha256(repr((sc["mode"], sc["certs"], [(o[0], type(o[1]).__name__ if o[0] == "exc" else o[1]) for o in outs if o], [len(tp.plain_in) > 0 for tp in peers], stable_hash(sched.trace))).encode()).hexdigest()[:16]
         res.trace = hash((mode, tuple(sc["certs"]), sched.signature()))
         res.nontrivial = sched.preemptions > 0
         res.sim_s = w.now - W.VClock.START
